@@ -1,13 +1,43 @@
 """C12 - heartbeats are sent on schedule with a correct interval field and sequence."""
 SPEC = {
     'engine': 'hb', 'harness': 'hb.cpp',
-    'repo_srcs': ['N2kMsg.cpp', 'N2kStream.cpp', 'N2kMessages.cpp', 'N2kTimer.cpp', 'N2kGroupFunction.cpp', 'N2kGroupFunctionDefaultHandlers.cpp', 'NMEA2000.cpp'],
+    'repo_srcs': ['N2kMsg.cpp', 'N2kStream.cpp', 'N2kMessages.cpp', 'N2kTimer.cpp', 'N2kGroupFunction.cpp', 'N2kGroupFunctionDefaultHandlers.cpp', 'NMEA2000.cpp', 'N2kDeviceList.cpp'],
     'variants': ['', 't32'],
     'lean_modules': ['N2k.Props.C12'], 'props_files': ['N2k/Props/C12.lean'],
     'translators': ['pgn_tables'],
-    'case_start': ['scenario'],
+    'case_start': ['scenario', 'devlist'],
     'oracle_prefixes': ['C12:'],
-    'trusted_base': [],
-    'assumptions': [],
+    'trusted_base': ["model N2k/Model/Heartbeat.lean transcribes tN2kSyncScheduler (N2kTimer.h), SetHeartbeatIntervalAndOffset, "
+                     "SendHeartbeat(bool), SendHeartbeat(int), SetN2kPGN126993 and the heartbeat defaults of Open() by hand, on top of the "
+                     "send-path model N2k/Model/Send.lean; both are tied to the real code by the differential run (both timer builds)",
+                     "the 64-bit clock N2kMillis64() is the unbounded model clock; on the 32-bit build it is the roll counter proved exact in "
+                     "C13_roll_counter; 64-bit overflow of NextTime (2^64 ms) is not modelled",
+                     "published layout of PGN 126993 (interval: 2 bytes little endian, 10 ms; sequence: byte 2; rest reserved 0xFF) is written "
+                     "down in Lemmas/HeartbeatSet.lean (decodeInterval10, seqByte) and independently in harness/hb.cpp"],
+    'assumptions': ["the heartbeat is configured after the node has opened (OnOpen or later): Open() applies the defaults 60000/10000 "
+                    "unconditionally, so a configuration made before Open() is overwritten, and if it equals the defaults its grid stays "
+                    "anchored at the stale static SyncOffset (observed, not part of this check)",
+                    "nothing is received and no product/configuration information is pending during the modelled polls (those paths are C08-C10)",
+                    "SendHeartbeat(int iDev) is an explicit application / group-function send and is not gated by IsActiveNode(); "
+                    "C12_inactive_silent covers SendHeartbeat(bool) and ParseMessages()",
+                    "offset special values other than 0xffffffff (keep) are ordinary offsets in the code (the header's 'restore default' for the "
+                    "offset is not implemented; (0xffffffff,0xffff) is 'do not change')", "dm_None, default build configuration"],
 }
-MANIFEST = {'text': '', 'design_ref': 'DESIGN.md section 4, C12', 'note': ''}
+MANIFEST = {
+    'text': "Theorems over the model (tree with the three recorded fixes): a heartbeat scheduler polled at ANY list of times always holds the "
+            "least point of its grid syncOffset+offset+j*period strictly after its last update, sends only at polls, only after the grid "
+            "point has passed and at most once per grid point (late polling delays, never shifts); after ANY history of operations on the "
+            "node (clock advances, polls, forced heartbeats, interval/offset changes, claims, back-pressure) every device's scheduler is "
+            "off or on its grid; one poll hands at most one heartbeat per device to SendMsg; the sequence bytes of a device's scheduled "
+            "heartbeats are c,c+1,...,252,0,... over ANY history while forced ones carry 0xFF and do not count; for EVERY interval up to "
+            "655320 ms the message has the published layout and its interval bytes decode at 10 ms resolution to the interval within "
+            "10 ms; SetHeartbeatIntervalAndOffset is characterised for EVERY argument, device index and device (keep own / default / "
+            "disable / clip to 1000..655320, NextTime); inactive modes hand nothing to SendMsg. Correspondence and oracle: real node "
+            "behind the mock driver under a virtual clock, both timer builds, 1..9 devices, jittered polls, gaps of several periods, "
+            "polls landing on grid points, >253 heartbeats, interval changes at arbitrary times, origins near 2^31 and 2^32; the oracle "
+            "computes the grid from the observed open time and the configured interval/offset alone and decodes the payload.",
+    'design_ref': 'DESIGN.md section 4, C12',
+    'note': "Trusted: Lean kernel; hand model tied by the differential run; the clock hypothesis above. The node-level grid theorem "
+            "assumes the heartbeat is configured after Open() (RunOk). The group-function request path (C09) reaches "
+            "SetHeartbeatIntervalAndOffset with 1000..60000 ms, covered by C12_clip_group_function; its acknowledgement logic is C09's.",
+}
